@@ -373,9 +373,12 @@ impl ValueType {
             ValueType::String => Some(Value::String(value_str.to_owned())),
             ValueType::Array(_) => None,
             ValueType::Timestamp => {
+                // A local time can be missing (skipped by a DST change) or ambiguous (repeated by one):
+                // the former is not a timestamp, for the latter the later instant is used (as create_timestamp does).
                 NaiveDateTime::parse_from_str(value_str, "%Y-%m-%d %H:%M:%S")
-                    .map(|x| Value::Timestamp(Local {}.from_local_datetime(&x).unwrap()))
                     .ok()
+                    .and_then(|x| Local {}.from_local_datetime(&x).latest())
+                    .map(|x| Value::Timestamp(x))
             }
             ValueType::Interval => {
                 let parts = value_str.split(":").collect::<Vec<_>>();
